@@ -253,29 +253,47 @@ func runSolver(ctx context.Context, sp solverSpec, file string, timeoutS int) So
 func Discharge(file string, tier string, timeoutS int) (SolverResult, []SolverResult) {
 	ctx := context.Background()
 	if tier != "thorough" {
-		r := runSolver(ctx, solvers[0], file, timeoutS)
-		if r.Status == "sat" || r.Status == "unsat" {
-			return r, []SolverResult{r}
-		}
-		all := []SolverResult{r}
-		ch := make(chan SolverResult, 2)
+		// hedged race: z3-new starts alone; the other two join if it has not answered within 1.5 s
 		cctx, cancel := context.WithCancel(ctx)
 		defer cancel()
-		for _, sp := range solvers[1:] {
-			sp := sp
-			go func() { ch <- runSolver(cctx, sp, file, timeoutS) }()
-		}
-		var best SolverResult = r
-		for i := 0; i < 2; i++ {
-			x := <-ch
-			all = append(all, x)
-			if x.Status == "sat" || x.Status == "unsat" {
-				best = x
-				cancel()
-				break
+		ch := make(chan SolverResult, len(solvers))
+		go func() { ch <- runSolver(cctx, solvers[0], file, timeoutS) }()
+		started := 1
+		var all []SolverResult
+		var first SolverResult
+		timer := time.NewTimer(1500 * time.Millisecond)
+		defer timer.Stop()
+		got := 0
+		for got < started {
+			select {
+			case x := <-ch:
+				got++
+				all = append(all, x)
+				if got == 1 {
+					first = x
+				}
+				if x.Status == "sat" || x.Status == "unsat" {
+					return x, all
+				}
+				if started == 1 {
+					// indefinite answer from the first solver: bring in the others now
+					for _, sp := range solvers[1:] {
+						sp := sp
+						go func() { ch <- runSolver(cctx, sp, file, timeoutS) }()
+					}
+					started = len(solvers)
+				}
+			case <-timer.C:
+				if started == 1 {
+					for _, sp := range solvers[1:] {
+						sp := sp
+						go func() { ch <- runSolver(cctx, sp, file, timeoutS) }()
+					}
+					started = len(solvers)
+				}
 			}
 		}
-		return best, all
+		return first, all
 	}
 	var wg sync.WaitGroup
 	res := make([]SolverResult, len(solvers))
